@@ -27,6 +27,14 @@ def l01long(timeout=900, tier="both"):
                 bounds="input of 0..260 bytes, level 0 or 1, length byte 250..255, name length <= 3, first 34 bytes arbitrary and zero filler behind them")
 
 
+def l01fix(hl, timeout=300, tier="both", sym=34):
+    # one concrete length byte per variant (quick-tier counterpart of l01.long)
+    return dict(name="l01.hl%d" % hl, src="hdr/l01.c", defines=["S_MAX=260", "SYM_BYTES=%d" % sym, "HL_MIN=250", "PLEN_MAX=3", "HL_FIX=%d" % hl], rename_defs=RN, no_shift_check=True,
+                extra_srcs=HDR_X, unwind=262, units=HDR_UNITS + ["decode_level0_header", "check_l0_checksum"], timeout=timeout, mem_gb=8, tier=tier, stubs=HDR_STUBS,
+                optional_witnesses=True,
+                bounds="input of 0..260 bytes, level 0 or 1, length byte %d (concrete), name length <= 3, first %d bytes arbitrary and zero filler behind them" % (hl, sym))
+
+
 def ext(num, dl, mode="functional", leak=False, timeout=300, tier="both"):
     tag = "other" if num is None else "%02x" % num
     return dict(name="ext.%s%s%s" % (tag, ".safe" if mode == "safety" else "", ".leak" if leak else ""), src="hdr/ext.c",
